@@ -10,11 +10,12 @@ CASES = {'amp': '&', 'lt': '<', 'gt': '>', 'quot': '"', 'plain': 'a', 'entity-li
 
 def build(key, variant, i):
     value = CASES[variant]
-    return {'env': {'value': value}, 'call': lambda: xmlSafe(value)}
+    import markupsafe
+    return {'env': {'value': value, 'is_markup': lambda x: isinstance(x, markupsafe.Markup)}, 'call': lambda: xmlSafe(value)}
 
 
 def finding_unescaped_interpolation(i):
     """C05: an interpolation of a requested string that no filter escapes"""
     from contracts.xml_scan import interpolations, classify
-    hits = [(f, line, e) for f, line, e in interpolations(REPO) if f == i['file'] and e == i['expr'] and classify(e) is None]
+    hits = [(f, line, e) for f, line, e in interpolations(REPO) if f == i['file'] and e == i['expr'] and classify(e, f) is None]
     return bool(hits), f"{i['file']}: {{{{{i['expr']}}}}} is rendered verbatim at line(s) {[h[1] for h in hits]}"
